@@ -110,6 +110,9 @@ inductive Op (τ : Type) where
   | rCx (L i : Nat)                 -- rewind: `clear_exit = +∞`
   deriving Repr
 
+def Op.link : Op τ → Nat
+  | .push L _ _ | .setAx L _ _ | .setCe L _ _ | .setCx L _ _ | .fin L _ _ | .pop L | .rAx L _ | .rCe L _ | .rCx L _ => L
+
 def modAt (tbl : Table τ) (L i : Nat) (f : Auth τ → Auth τ) : Option (Table τ) :=
   match (link tbl L)[i]? with
   | none => none
@@ -133,7 +136,7 @@ def step (inf : τ) (tbl : Table τ) : Op τ → Option (Table τ)
     what `gate` delivers; for the closing operations they say that a train's own event times do not run
     backwards; `leaderGone = true` adds, for `fin`, that the train ahead has left the link (the pinned
     code does NOT guarantee this: known finding "early exit behind a leader"). -/
-def preG (leaderGone : Bool) (net : Net) (spacing overlap inf : τ) (tbl : Table τ) : Op τ → Bool
+def preOp (leaderGone : Bool) (net : Net) (spacing overlap inf : τ) (tbl : Table τ) : Op τ → Bool
   | .push L _ t => decide (t < inf) && entryOk net spacing overlap tbl L t
   | .setAx L i t =>
     decide (1 ≤ i) &&
@@ -174,6 +177,10 @@ def preG (leaderGone : Bool) (net : Net) (spacing overlap inf : τ) (tbl : Table
        | some s => decide (a.ce + spacing ≤ s.ae) && decide (inf ≤ s.ax) && decide (inf ≤ s.cx)) &&
       -- no conflicting authority was granted after it
       (net.conf L).all fun M => (link tbl M).all fun b => decide (b.cx ≤ a.ae) || decide (b.cx ≤ b.ae)
+
+/-- every operation of the code is on a real link (`link_idx.is_real()`): link 0 is the fake link -/
+def preG (leaderGone : Bool) (net : Net) (spacing overlap inf : τ) (tbl : Table τ) (op : Op τ) : Bool :=
+  decide (op.link ≠ 0) && preOp leaderGone net spacing overlap inf tbl op
 
 /-- the conditions the proofs need -/
 def pre (net : Net) (spacing overlap inf : τ) (tbl : Table τ) (op : Op τ) : Bool :=
@@ -217,11 +224,12 @@ def planOk (net : Net) (spacing inf : τ) (tbl : Table τ) : Bool :=
     (link tbl L).all (wfB inf) && chainB (seqB spacing) (link tbl L) &&
     (net.conf L).all fun M => (link tbl L).all fun a => (link tbl M).all fun b => disjB a b
 
-/-- `conf` is symmetric and irreflexive on links `< n` (flip pairs are validated by `[Link]::validate`;
-    lockout declarations are not validated at all) -/
+/-- on the real links `1 … n-1`, `conf` is irreflexive and symmetric (flip pairs are validated by
+    `[Link]::validate`; lockout declarations are not validated at all) -/
 def netOk (net : Net) (n : Nat) : Bool :=
-  (List.range n).all fun L =>
-    (net.conf L).all fun M => decide (M ≠ L) && (decide (n ≤ M) || (net.conf M).contains L)
+  (List.range n).all fun L => L == 0 ||
+    (!(net.conf L).contains L &&
+     (List.range n).all fun K => !(net.conf K).contains L || (net.conf L).contains K)
 
 end
 end Altrios.Dispatch
